@@ -332,7 +332,14 @@ func init() {
 		Technique: "explicit-state search over the real Stack: every reachable content for capacities 1..4 (quick) x every operation, all constructors with 0..33 initial values followed by pushes past capacity and pops past empty; Go-slice reference model",
 		Rule:      "state = dump of private fields; transition = (state, op) on a rebuilt real stack",
 		Assume:    []string{"two pushed values; capacities as listed"},
-		Budget:    func(string) time.Duration { return 3 * time.Minute },
+		Budget: func(tier string) time.Duration {
+			// the quick search finishes in seconds; the budget only bounds a search whose state space a change of
+			// the library has made unbounded (a private modification counter): reported as not exhaustive
+			if tier == "thorough" {
+				return 15 * time.Minute
+			}
+			return 90 * time.Second
+		},
 		Units:     units,
 	})
 }
